@@ -144,6 +144,13 @@ def run_case(case, ctx):
         r2, _ = om.bottleneck_ref(S2, T2)
         v2, _ = call_warn(ctx, persim.bottleneck, farr(S2), farr(T2))
         check_value(ctx, "value-aff", v2, r2, 1e-12 * scale_of(S2, T2), "affine a=%r c=%r" % (a, c), S2, T2)
+    # --- far from the origin at coordinates that are not short binary fractions: |b - b'| and |d - d'| of nearby
+    # points are still EXACT in floating point, so the value is matched relative to ITSELF, not to the coordinates
+    for a, c in ((1.0 / 3.0, 1048576.0 + 1.0 / 3.0), (1.0, 1.7e9 + 0.1), (0.001, -3e7 - 0.7)):
+        Sf, Tf = aff(S, a, c), aff(T, a, c)
+        rf, _ = om.bottleneck_ref(Sf, Tf)
+        vf, _ = call_warn(ctx, persim.bottleneck, farr(Sf), farr(Tf))
+        check_value(ctx, "value-far-offset", vf, rf, 1e-12 * abs(rf), "far offset a=%r c=%r" % (a, c), Sf, Tf)
     # --- every row order (the value may not depend on it)
     if len(S) <= 3 and len(T) <= 3:
         for Sp in distinct_permutations(tuple(map(tuple, S))):
@@ -155,6 +162,10 @@ def run_case(case, ctx):
     # --- containers
     vl, _ = call_warn(ctx, persim.bottleneck, [list(p) for p in S], [list(p) for p in T])
     check_value(ctx, "value-container", vl, ref, 0.0, "nested lists", S, T)
+    if S and T:
+        # a diagram given as a Python list / tuple of its ROWS as 1-D arrays (what list(array) produces)
+        vr, _ = call_warn(ctx, persim.bottleneck, [np.array(p, dtype=float) for p in S], tuple(np.array(p, dtype=float) for p in T))
+        check_value(ctx, "value-container", vr, ref, 0.0, "list / tuple of row arrays", S, T)
     vi, _ = call_warn(ctx, persim.bottleneck, iarr(S), iarr(T))
     check_value(ctx, "value-container", vi, ref, 0.0, "int arrays", S, T)
     # mixed representations: integer array against a fractional float array (and the other way round)
@@ -172,7 +183,9 @@ def run_case(case, ctx):
         vq, _ = call_warn(ctx, persim.bottleneck, a1, a2)
         check_value(ctx, "value-mixed-dtype", vq, rq, 1e-12, what, X_, Y_)
     # integer-typed arrays with large values / narrow or unsigned dtypes
-    for dt, kk in ((np.int64, 4 * 10 ** 9), (np.int32, 50000), (np.uint8, 60)):
+    for dt, kk in ((np.int64, 4 * 10 ** 9), (np.int32, 50000), (np.uint8, 60), (np.uint8, 85), (np.int16, 10900), (np.int8, 42)):
+        if max([x for p_ in S + T for x in p_] or [0]) * kk > np.iinfo(dt).max:
+            continue
         Si = (np.array(S, dtype=np.int64).reshape(-1, 2) * kk).astype(dt)
         Ti = (np.array(T, dtype=np.int64).reshape(-1, 2) * kk).astype(dt)
         ri, _ = om.bottleneck_ref(Si.astype(float).tolist(), Ti.astype(float).tolist())
